@@ -37,13 +37,18 @@ type c06File struct {
 }
 
 func c06Check(f genFile, loaders []string) (kind, msg, loader string) {
-	for _, loader = range loaders {
-		res := loadWith(loader, bytes.NewReader(f.Bytes))
+	// the kind of reader is a function of the bytes (so that a replay uses the same one): plain,
+	// positioned inside a larger reader, buffered, Read-only ... - see readerOfKind
+	rk := int(fnv64(f.Bytes) % uint64(len(readerKindNames)))
+	for li, l := range loaders {
+		loader = l
+		via := readerKindNames[(rk+li)%len(readerKindNames)]
+		res := loadWith(loader, readerOfKind(f.Bytes, rk+li))
 		if res.Panic != nil {
-			return "panic", fmt.Sprintf("%s.Load panicked on %s: %v", loader, f.Name, res.Panic), loader
+			return "panic", fmt.Sprintf("%s.Load panicked on %s (read from a %s): %v", loader, f.Name, via, res.Panic), loader
 		}
 		if res.Err != nil || res.MD == nil {
-			return "load-failed", fmt.Sprintf("%s.Load failed on %s (ICC state %s, %d profile bytes): %v", loader, f.Name, f.Truth.ICCState, len(f.Truth.ICC), res.Err), loader
+			return "load-failed", fmt.Sprintf("%s.Load failed on %s (ICC state %s, %d profile bytes, read from a %s): %v", loader, f.Name, f.Truth.ICCState, len(f.Truth.ICC), via, res.Err), loader
 		}
 		md := res.MD
 		if md.PixelWidth != f.Truth.W || md.PixelHeight != f.Truth.H {
